@@ -26,7 +26,8 @@ class Unlisted(Exception):
     pass
 
 
-HARNESS_BUG_TYPES = (KeyError, AssertionError, NameError, ImportError, NotImplementedError)
+from .common import HarnessError  # noqa: E402
+HARNESS_BUG_TYPES = (KeyError, AssertionError, NameError, ImportError, NotImplementedError, HarnessError)
 
 
 def safe_check(mod, case):
